@@ -28,7 +28,7 @@ pub static DEF: CheckDef = CheckDef {
 };
 
 fn families(t: Tier) -> Vec<(&'static str, u64)> {
-    vec![("subsets", t.n(126 * 40, 126 * 2_000)), ("passes", t.n(3_000, 100_000))]
+    vec![("subsets", t.n(126 * 40, 126 * 10_000)), ("passes", t.n(3_000, 500_000))]
 }
 fn floors(_t: Tier) -> Vec<(&'static str, u64)> {
     vec![("evaluations", 6_000), ("updates", 8_000), ("parameters_checked_updated", 15_000), ("parameters_checked_frozen", 10_000)]
